@@ -433,6 +433,8 @@ thread_local! {
     /// 1: the termination condition is `LessThanN::iterations(n) & !OptimumReached::new(1e-9)` (the usual "budget or optimum"
     /// termination) where the optimum cannot be reached, instead of the iteration budget alone
     pub static COND_VARIANT: std::cell::Cell<u8> = const { std::cell::Cell::new(0) };
+    /// while set, the problem of a run has a noisy objective function (see `Instr::noisy`)
+    pub static NOISY_OBJECTIVE: std::cell::Cell<bool> = const { std::cell::Cell::new(false) };
 }
 
 /// One pool per size for the whole process (creating a pool per run costs more than the run).
@@ -558,6 +560,9 @@ where
             EvKind::Gated(..) => (self.problem)().with_instr(Instr::gated(gate.clone())),
             _ => (self.problem)(),
         };
+        if NOISY_OBJECTIVE.with(|v| v.get()) {
+            problem.instr().noisy.store(true, std::sync::atomic::Ordering::SeqCst);
+        }
         let looplog = Arc::new(Mutex::new(vec![]));
         let mut out = RunOutcome::default();
         let tmpl = self.name.to_string();
@@ -941,6 +946,9 @@ pub fn large_specs(iters: u32) -> Vec<Box<dyn AnySpec>> {
     let tsp = |n: usize| move || TspP::line(&(0..n - 1).map(|i| 1.0 + ((i * 7) % 5) as f64 * 0.75).collect::<Vec<_>>(), Instr::new());
     spec!(v, "real_ga", "large pop=33 dim=10", real(10, FKind::Shifted), iters, exact(33), move |c| ga::real_ga(ga::RealProblemParameters { population_size: 33, tournament_size: 3, pm: 0.37, deviation: 0.21, pc: 0.83 }, c));
     spec!(v, "binary_ga", "large pop=26 dim=40", || BinP { dim: 40, instr: Instr::new() }, iters, exact(26), move |c| ga::binary_ga(ga::BinaryProblemParameters { population_size: 26, tournament_size: 4, rm: 0.07, pc: 0.61, pm: 0.9 }, c));
+    // dimensions that are a multiple of 64 (whole machine words of a bit-packed mask)
+    spec!(v, "real_ga", "large pop=12 dim=64", real(64, FKind::Sphere), iters.min(40), exact(12), move |c| ga::real_ga(ga::RealProblemParameters { population_size: 12, tournament_size: 2, pm: 0.2, deviation: 0.15, pc: 0.9 }, c));
+    spec!(v, "binary_ga", "large pop=10 dim=128", || BinP { dim: 128, instr: Instr::new() }, iters.min(40), exact(10), move |c| ga::binary_ga(ga::BinaryProblemParameters { population_size: 10, tournament_size: 3, rm: 0.05, pc: 0.8, pm: 0.7 }, c));
     spec!(v, "real_mu_plus_lambda_es", "large mu=9 lambda=31 dim=12", real(12, FKind::Sphere), iters, exact(9), move |c| es::real_mu_plus_lambda_es::<RealP, ()>(es::RealProblemParameters { population_size: 9, lambda: 31, deviation: 0.13 }, c));
     spec!(v, "real_de", "large pop=21 y=2 dim=9", real(9, FKind::Shifted), iters, exact(21), move |c| de::real_de(de::RealProblemParameters { population_size: 21, y: 2, f: 0.73, pc: 0.37 }, c));
     spec!(v, "real_de", "large pop=12 y=1 dim=70", real(70, FKind::Sphere), iters.min(40), exact(12), move |c| de::real_de(de::RealProblemParameters { population_size: 12, y: 1, f: 0.61, pc: 0.9 }, c));
